@@ -2,6 +2,7 @@
 # usage: run_seed.sh <seed-name> <property>...   applies the seeded patch to /repo, runs the checks, undoes it
 name=$1; shift
 cd /verif
+if [ -n "$(git -C /repo status --short | grep -v etc/libs/pip)" ]; then echo "REFUSING: /repo has uncommitted changes (commit contract edits first)"; exit 2; fi
 if ! git -C /repo apply --check /verif/seeded/$name/patch.diff 2>/dev/null; then
   if git -C /repo apply --3way --check /verif/seeded/$name/patch.diff 2>/dev/null; then :; else echo "PATCH DOES NOT APPLY: $name"; exit 2; fi
 fi
